@@ -176,7 +176,8 @@ def recvPacket (s : Core) (p : Packet) (π : Proof) (h : Nat) : Core × Res :=
       match s.clients (recvProver s p) with
       | none => (s, .err .clientNotFound)
       | some cl =>
-        if !verify cl (recvProver s p) h π (.commit p.key) (.digest (H p.data)) then (s, .err .verify)
+        if !cl.active s.now then (s, .err .clientNotActive)
+        else if !verify cl (recvProver s p) h π (.commit p.key) (.digest (H p.data)) then (s, .err .verify)
         else recvWrites H s p
 
 /-! ### `WriteAcknowledgement` -/
@@ -225,7 +226,8 @@ def acknowledgePacket (s : Core) (p : Packet) (ack : Data) (π : Proof) (h : Nat
       match s.clients (ackProver s p) with
       | none => (s, .err .clientNotFound)
       | some cl =>
-        if !verify cl (ackProver s p) h π (.ack p.key) (.digest (H ack)) then (s, .err .verify)
+        if !cl.active s.now then (s, .err .clientNotActive)
+        else if !verify cl (ackProver s p) h π (.ack p.key) (.digest (H ack)) then (s, .err .verify)
         else ackWrites H s p ack
 
 end
@@ -272,7 +274,8 @@ def recvCleanPacket (s : Core) (cp : CleanPacket) (π : Proof) (h : Nat) : Core 
     match s.clients (cleanProver s cp) with
     | none => (s, .err .clientNotFound)
     | some cl =>
-      if !verify cl (cleanProver s cp) h π (.clean cp.pair) (.seq cp.seq) then (s, .err .verify)
+      if !cl.active s.now then (s, .err .clientNotActive)
+      else if !verify cl (cleanProver s cp) h π (.clean cp.pair) (.seq cp.seq) then (s, .err .verify)
       else recvCleanWrites s cp
 
 end Core
